@@ -28,13 +28,31 @@ fn decl_type(class: &str) -> &'static str {
     }
 }
 
-/// minus: "" none, "-" attached, "- " with a space
+/// minus: "" none, "-" attached, "- " with a space; a form with the placeholder `§` wraps the literal
+/// (`-(-§)`, `- -§`): the value is negative iff the number of minus signs is odd
 fn source(pos: &str, class: &str, minus: &str, lit: &str) -> String {
     let ty = decl_type(class);
+    let e = if minus.contains('§') { minus.replace('§', lit) } else { format!("{minus}{lit}") };
     match pos {
-        "init" => format!("{ty} v = {minus}{lit};"),
-        "assign" => format!("{ty} v;\nv = {minus}{lit};"),
-        _ => format!("U({minus}{lit}, 0, 0) $0;"),
+        "init" => format!("{ty} v = {e};"),
+        "assign" => format!("{ty} v;\nv = {e};"),
+        _ => format!("U({e}, 0, 0) $0;"),
+    }
+}
+
+/// Unary minus nodes (and parentheses / casts) around the literal: returns the innermost expression and
+/// whether an odd number of minus nodes was crossed.
+fn strip_minus_nodes(e: &TExpr) -> (&TExpr, bool) {
+    let mut cur = strip_casts(e);
+    let mut flipped = false;
+    loop {
+        match cur.expression() {
+            Expr::UnaryExpr(u) if matches!(u.op(), oq3_semantics::asg::UnaryOp::Minus) => {
+                flipped = !flipped;
+                cur = strip_casts(u.operand());
+            }
+            _ => return (cur, flipped),
+        }
     }
 }
 
@@ -113,7 +131,8 @@ fn check_case(spec: &str, obs: &mut Obs) {
     let expect = &parts[5..];
     let src = source(pos, class, minus, lit);
     obs.fp.str(&src);
-    let neg = !minus.is_empty();
+    let neg = minus.matches('-').count() % 2 == 1;
+    let nested_minus = minus.contains('§');
     let cell = |clause: &str| format!("{class}/{}/{}/{pos}/{clause}", feature(lit, class), if neg { "negated" } else { "plain" });
     // ---- AST accessors
     let ast_r = guard(|| {
@@ -209,7 +228,10 @@ fn check_case(spec: &str, obs: &mut Obs) {
         obs.done(true);
         return;
     };
-    let inner = strip_casts(&texpr);
+    // minus signs written around an already negated literal stay unary nodes of the graph: the value
+    // of the whole expression is what is compared
+    let (inner, flipped) = if nested_minus { strip_minus_nodes(&texpr) } else { (strip_casts(&texpr), false) };
+    let neg = neg ^ flipped;
     let got = inner.expression();
     let ty = inner.get_type();
     let mut ok = true;
@@ -357,12 +379,12 @@ fn boundary_cases() -> Vec<String> {
     for &val in &vals {
         for radix in [2u32, 8, 10, 16] {
             for (up, ud) in [(false, false), (true, true), (false, true)] {
-                for us in 0..4u32 {
+                for us in 0..6u32 {
                     if radix == 10 && us == 3 {
                         continue;
                     }
                     let i = spell_int(val, radix, up, ud, us, &mut r);
-                    for minus in ["", "-", "- "] {
+                    for minus in ["", "-", "- ", "- -§", "--§", "-(-§)", "-(§)", "-(-(-§))", "(-§)"] {
                         for pos in POSITIONS {
                             v.push(format!("L|{pos}|int|{minus}|{}|{}", i.text, i.value));
                         }
